@@ -237,7 +237,11 @@ def law_case_check(case):
         kw = dict(initial_infecteds=list(I0), tmin=tmin, tmax=tmax, return_full_data=full)
         if R0:
             kw['initial_recovereds'] = list(R0)
-        return f(G, p, **kw)
+        args = [G, p]
+        if (len(gc['edges']) + len(I0)) % 2 == 1:
+            from .. import simrun
+            args, kw = simrun.positional(sim, args, kw)          # every argument by position, in the documented order
+        return f(*args, **kw)
 
     for full in (False, True):
         mode = 'full' if full else 'arrays'
